@@ -143,26 +143,40 @@ def parseCR (s : String) : Option (Nat × Nat) :=
   | [c, r] => match c.toNat?, r.toNat? with | some c, some r => some (c, r) | _, _ => none
   | _ => none
 
-/-- `edit create <cells> <col>.<row> <n> <rows>`: the cell list of the sheet before the edit, the new cell's position,
+def create5 (spec cr n rows : String) : String :=
+  let rws : Option (List Nat) := if rows = "~" then some [] else (rows.splitOn ",").mapM (·.toNat?)
+  match parseCells spec, parseCR cr, n.toNat?, rws with
+  | some cs, some (c, r), some n, some rws =>
+    let cell : Umya.CellXml.Cell F.Num := { col := c, row := r, raw := .str ['x'] }
+    match Umya.CellXml.lookup F cs (r, c) with
+    | some _ => "not-a-creation"
+    | none =>
+      let kept := Umya.CellXml.normS F (Umya.CellXml.createSheet F n cell cs)
+      let rs := (Umya.CellXml.ensureRow r 0 (rws.map fun k => ({ num := k }, 0))).map (·.1.num)
+      let sorted := rs.toArray.qsort (· < ·) |>.toList
+      showKept kept ++ " " ++ ",".intercalate (sorted.map toString)
+  | _, _, _, _ => "bad-op"
+
+/-- `edit create <cells> <col>.<row> <n> <rows> [<cols>]`: the cell list of the sheet before the edit, the new cell's position,
     its place in the list, the row numbers that have a record → the kept coordinates after one save + load of
     `createSheet`, and the row numbers with a record after `ensureRow` (sorted).
     `edit delete <cells> <col>.<row>` → the kept coordinates of `deleteSheet`;
     `edit blank <cells> <col>.<row>` → the kept coordinates of `editSheet … setBlank`. -/
 def edit (args : List String) : String :=
   match args with
-  | ["create", spec, cr, n, rows] =>
-    let rws : Option (List Nat) := if rows = "~" then some [] else (rows.splitOn ",").mapM (·.toNat?)
-    match parseCells spec, parseCR cr, n.toNat?, rws with
-    | some cs, some (c, r), some n, some rws =>
-      let cell : Umya.CellXml.Cell F.Num := { col := c, row := r, raw := .str ['x'] }
-      match Umya.CellXml.lookup F cs (r, c) with
-      | some _ => "not-a-creation"
-      | none =>
-        let kept := Umya.CellXml.normS F (Umya.CellXml.createSheet F n cell cs)
-        let rs := (Umya.CellXml.ensureRow r 0 (rws.map fun k => ({ num := k }, 0))).map (·.1.num)
-        let sorted := rs.toArray.qsort (· < ·) |>.toList
-        showKept kept ++ " " ++ ",".intercalate (sorted.map toString)
-    | _, _, _, _ => "bad-op"
+  | ["create", spec, cr, n, rows] => create5 spec cr n rows
+  | ["create", spec, cr, n, rows, cols] =>
+    -- the same with the column numbers that have a record: third field = the column numbers after `ensureCol`
+    let cls : Option (List Nat) := if cols = "~" then some [] else (cols.splitOn ",").mapM (·.toNat?)
+    match parseCR cr, cls with
+    | some (c, _), some cls =>
+      let first := create5 spec cr n rows
+      if first = "bad-op" ∨ first = "not-a-creation" then first
+      else
+        let ks := (Umya.CellXml.ensureCol c 0 (cls.map fun k => ({ width := Umya.StyleCodec.defaultWidth }, k, k, 0))).map (·.2.1)
+        let sorted := ks.toArray.qsort (· < ·) |>.toList
+        first ++ " " ++ ",".intercalate (sorted.map toString)
+    | _, _ => "bad-op"
   | ["delete", spec, cr] =>
     match parseCells spec, parseCR cr with
     | some cs, some (c, r) => showKept (Umya.CellXml.normS F (Umya.CellXml.deleteSheet F (r, c) cs))
